@@ -115,11 +115,16 @@ def lean_check(prop_id, module, theorems, regen=None, clean=False):
     if rc != 0:
         r.ok = False
         r.failed.append(('lake build driver', _first_error(out)))
-    rc, out = _lake(['build', module])
+    mods = [module]
+    for th in theorems:
+        mm = re.match(r'WV\.(C\d+)\.', th)
+        if mm and ('WaveletsVerif.Properties.' + mm.group(1)) not in mods:
+            mods.append('WaveletsVerif.Properties.' + mm.group(1))
+    rc, out = _lake(['build'] + mods)
     r.log += out
     if rc != 0:
         r.ok = False
-        r.failed.append(('lake build ' + module, _first_error(out)))
+        r.failed.append(('lake build ' + ' '.join(mods), _first_error(out)))
         # find which theorems still check: try the audit anyway only if olean exists
     hits = grep_forbidden()
     if hits:
@@ -129,7 +134,8 @@ def lean_check(prop_id, module, theorems, regen=None, clean=False):
         audit = os.path.join(LEAN, '.lake', 'audit_%s.lean' % prop_id)
         os.makedirs(os.path.dirname(audit), exist_ok=True)
         with open(audit, 'w') as f:
-            f.write('import %s\n' % module)
+            for mname in mods:
+                f.write('import %s\n' % mname)
             for th in theorems:
                 f.write('#print axioms %s\n' % th)
         rc2, out2 = _lake(['env', 'lean', audit])
